@@ -193,11 +193,12 @@ def run(ctx) -> int:
     def probe(Lp, names):
         for name in names:
             for pn, cfg, md in mds:
-                v, row = family_check(name, md, Lp)
+                # the listed quadratic family is measured at a length where it still finishes
+                v, row = family_check(name, md, min(Lp, 1500) if name in KNOWN_QUADRATIC else Lp)
                 count["measurements"] += len(row)
                 table[f"{name}/{pn}"] = [list(r) for r in row]
                 if v:
-                    if name in KNOWN_QUADRATIC and known and "multiplies the calls" in v["what"]:
+                    if name in KNOWN_QUADRATIC and known and ("multiplies the calls" in v["what"] or "Hang" in v["what"]):
                         count["known"] += 1
                         rep.known_finding(known)
                         continue
